@@ -30,6 +30,8 @@ def _leaf(fn):
 
 
 def run(ctx, obs):
+    from ..rules import sweeps
+    sweeps.run(ctx, obs, 'C14')
     dof_polynomials(ctx, obs)
     for fn in ('cov_from_residuals', 'cov_from_measurements', 'cov_from_unbalanced'):
         q = N + fn
